@@ -14,7 +14,78 @@ const TEXTS: &[&str] = &[
     "α * ln(z*z+1) + 2* (-z^2 + sin(4*y))",
     "atan2(0.2/(y*y+1), x) + max(x, min(y, 3)) - {a b}",
     "-(x^2)/(1+exp(-y)) + tanh(z) * PI",
+    // Horner scheme nested 48 levels deep: many threads are deep inside a deep expression at once
+    "HORNER",
+    // 70 operands on one level: beyond the single-word operand tracker and the inline SmallVecs
+    "a1+a2*a3-a4/2+a5*a6+a7-a8*3+a9+a1*a2-a3+a4*a5/4+a6-a7*a8+a9*2+a1-a2+a3*a4-a5+a6/5+a7*a8-a9+1+a1*a1-a2*a2+a3-a4+a5*6-a6+a7/7+a8-a9*a9+a1+a2+a3-a4*a5+a6*a7-a8/8+a9",
 ];
+
+/// values the float texts must have, computed natively (independent of exmex; tolerance because
+/// folding may regroup commutative chains)
+fn closed_form(i: usize, v: &[f64]) -> Option<f64> {
+    Some(match i {
+        0 => (1.0 + v[1]).sin() * v[0],
+        2 => {
+            // variables sorted: y, z, α
+            let (y, z, alpha) = (v[0], v[1], v[2]);
+            // unary minus binds tighter than ^
+            alpha * (z * z + 1.0).ln() + 2.0 * ((-z).powf(2.0) + (4.0 * y).sin())
+        }
+        5 => {
+            let x = v[0];
+            let mut acc = 1.0 + x;
+            for _ in 0..47 {
+                acc = 1.0 + x * acc;
+            }
+            acc
+        }
+        _ => return None,
+    })
+}
+
+// two custom operator tables with the same names in a different order, one name being a prefix
+// of another; used alternately by all threads. `--` is the decrement, `-` is dual.
+use exmex::{BinOp, MakeOperators, Operator};
+macro_rules! dec_factory {
+    ($name:ident, $first:expr) => {
+        #[derive(Clone, Debug)]
+        struct $name;
+        impl MakeOperators<f64> for $name {
+            fn make<'a>() -> Vec<Operator<'a, f64>> {
+                let dec = Operator::make_unary("--", |a: f64| a - 1.0);
+                let minus = Operator::make_bin_unary("-", BinOp { apply: |a, b| a - b, prio: 1, is_commutative: false }, |a: f64| -a);
+                let plus = Operator::make_bin("+", BinOp { apply: |a, b| a + b, prio: 0, is_commutative: true });
+                let times = Operator::make_bin("*", BinOp { apply: |a, b| a * b, prio: 2, is_commutative: true });
+                if $first {
+                    vec![dec, minus, plus, times]
+                } else {
+                    vec![minus, dec, plus, times]
+                }
+            }
+        }
+    };
+}
+dec_factory!(DecFirst, true);
+dec_factory!(DecSecond, false);
+
+/// `3*--x+1` must be 3*(x-1)+1 with either table, whatever was parsed before in this process
+fn custom_tables(thread: usize, rounds: usize) -> Vec<String> {
+    let mut problems = vec![];
+    for k in 0..rounds {
+        let x = 0.5 + thread as f64 + 0.25 * k as f64;
+        let want = 3.0 * (x - 1.0) + 1.0;
+        let got = if (k + thread) % 2 == 0 {
+            FlatEx::<f64, DecFirst>::parse("3*--x+1").and_then(|e| e.eval(&[x]))
+        } else {
+            FlatEx::<f64, DecSecond>::parse("3*--x+1").and_then(|e| e.eval(&[x]))
+        };
+        match got {
+            Ok(g) if g == want => {}
+            other => problems.push(format!("thread {thread}: custom table {} gives {other:?} for 3*--x+1 at x={x}, expected {want}", if (k + thread) % 2 == 0 { "[--, -, +, *]" } else { "[-, --, +, *]" })),
+        }
+    }
+    problems
+}
 const VAL_TEXTS: &[&str] = &["1.0 if x > y else 73", "(x + 2) * 3 - y / 2.0", "to_float(fact(4)) + x ^ 2", "dot([1.0, 2.0, 3.0], [x, y, 1.0].0 * [1.0, 1.0, 1.0])"];
 
 fn point(thread: usize, k: usize, n: usize) -> Vec<f64> {
@@ -53,7 +124,8 @@ fn evaluate(thread: usize, iters: usize, flats: &[FlatEx<f64>], deeps: &[DeepEx<
                 0 => out.push(f.clone().eval(&p).unwrap().to_bits()),
                 1 => out.push(f.clone().to_deepex().unwrap().eval(&p).unwrap().to_bits()),
                 2 => {
-                    if i != 3 {
+                    // no derivative rule for atan2/min/max (#3); deep recursion / swell for #5, #6
+                    if i != 3 && i < 5 {
                         out.push(f.clone().partial(0).map(|d| d.eval(&p).unwrap()).unwrap_or(f64::NAN).to_bits())
                     }
                 }
@@ -79,7 +151,21 @@ fn main() {
     // "lenient" mode for interpreters that make float intrinsics and function-pointer addresses
     // non-deterministic on purpose (Miri): only the interpreter's own verdict (UB, data race) counts
     let lenient = args.get(4).map(|s| s == "lenient").unwrap_or(false);
-    let texts = &TEXTS[..ntexts];
+    // the Horner text is built here: 1+x*(1+x*( ... (1+x) ... )) nested 48 levels deep
+    let horner: &'static str = {
+        let mut h = String::new();
+        for _ in 0..47 {
+            h.push_str("1+x*(");
+        }
+        h.push_str("1+x");
+        for _ in 0..47 {
+            h.push(')');
+        }
+        Box::leak(h.into_boxed_str())
+    };
+    let all_texts: Vec<&'static str> = TEXTS.iter().map(|t| if *t == "HORNER" { horner } else { *t }).collect();
+    let all_texts: &'static [&'static str] = Box::leak(all_texts.into_boxed_slice());
+    let texts = &all_texts[..ntexts];
     let val_texts = if lenient { &VAL_TEXTS[..0] } else { &VAL_TEXTS[..ntexts.min(VAL_TEXTS.len())] };
 
     // phase A: cold start, all threads parse the same texts at once
@@ -89,7 +175,7 @@ fn main() {
     let handles: Vec<_> = (0..threads)
         .map(|t| {
             let (barrier, ticket, order) = (barrier.clone(), ticket.clone(), order.clone());
-            std::thread::spawn(move || {
+            std::thread::Builder::new().stack_size(256 << 20).spawn(move || {
                 barrier.wait();
                 let first = FlatEx::<f64>::parse(texts[t % texts.len()]).expect("parse");
                 let my_ticket = ticket.fetch_add(1, Ordering::SeqCst);
@@ -97,6 +183,7 @@ fn main() {
                 let all = parse_all(texts, val_texts);
                 (first, all)
             })
+            .expect("spawn")
         })
         .collect();
     let results: Vec<_> = handles.into_iter().map(|h| h.join().expect("thread panicked")).collect();
@@ -109,14 +196,59 @@ fn main() {
     let handles: Vec<_> = (0..threads)
         .map(|t| {
             let (barrier, shared) = (barrier.clone(), shared.clone());
-            std::thread::spawn(move || {
+            std::thread::Builder::new().stack_size(256 << 20).spawn(move || {
                 barrier.wait();
-                evaluate(t, iters, &shared.0, &shared.1, &shared.2)
+                let custom = if lenient { vec![] } else { custom_tables(t, iters) };
+                (evaluate(t, iters, &shared.0, &shared.1, &shared.2), custom)
             })
+            .expect("spawn")
         })
         .collect();
-    let concurrent: Vec<Vec<u64>> = handles.into_iter().map(|h| h.join().expect("thread panicked")).collect();
+    let joined: Vec<(Vec<u64>, Vec<String>)> = handles.into_iter().map(|h| h.join().expect("thread panicked")).collect();
+    let mut custom_problems: Vec<String> = joined.iter().flat_map(|j| j.1.clone()).collect();
+    custom_problems.truncate(5);
+    let concurrent: Vec<Vec<u64>> = joined.into_iter().map(|j| j.0).collect();
     let after = format!("{:?}{:?}{:?}", shared.0, shared.1, shared.2);
+
+    // phase C: all threads are deep inside the same deeply nested expression at the same time
+    let mut storm_problems: Vec<String> = vec![];
+    if !lenient && ntexts > 5 {
+        let barrier = Arc::new(Barrier::new(threads));
+        let storm = iters * 100;
+        let handles: Vec<_> = (0..threads)
+            .map(|t| {
+                let (barrier, shared) = (barrier.clone(), shared.clone());
+                std::thread::Builder::new()
+                    .stack_size(256 << 20)
+                    .spawn(move || {
+                        barrier.wait();
+                        let mut bad: Option<String> = None;
+                        for k in 0..storm {
+                            let x = 0.1 + 0.8 * ((t * storm + k) % 1000) as f64 / 1000.0;
+                            let want = closed_form(5, &[x]).unwrap();
+                            for (what, got) in [("deep", shared.1[5].eval(&[x])), ("flat", shared.0[5].eval(&[x]))] {
+                                match got {
+                                    Ok(g) if (g - want).abs() <= 1e-9 * want.abs().max(1.0) => {}
+                                    other => {
+                                        if bad.is_none() {
+                                            bad = Some(format!("thread {t}: concurrent evaluation #{k} of the 48-level nested {what} expression gives {other:?}, closed form {want}"));
+                                        }
+                                    }
+                                }
+                            }
+                        }
+                        bad
+                    })
+                    .expect("spawn")
+            })
+            .collect();
+        for h in handles {
+            if let Some(b) = h.join().expect("thread panicked") {
+                storm_problems.push(b);
+            }
+        }
+        storm_problems.truncate(4);
+    }
 
     // sequential reference, made afterwards on one thread
     let (sflats, sdeeps, svals, sparsed) = parse_all(texts, val_texts);
@@ -130,6 +262,23 @@ fn main() {
         }
         if format!("{first:?}") != format!("{:?}", sflats[t % texts.len()]) {
             problems.push(format!("thread {t}: the very first parse differs"));
+        }
+    }
+    problems.extend(custom_problems);
+    problems.extend(storm_problems);
+    // closed forms: also a sequential run cannot be trusted if global state was poisoned
+    for (i, f) in sflats.iter().enumerate() {
+        let n = f.var_names().len();
+        for t in 0..threads.min(4) {
+            let p = point(t, 1, n);
+            if let Some(want) = closed_form(i, &p) {
+                for (what, got) in [("flat", f.eval(&p)), ("deep", sdeeps[i].eval(&p))] {
+                    match got {
+                        Ok(g) if (g - want).abs() <= 1e-9 * want.abs().max(1.0) => {}
+                        other => problems.push(format!("text #{i} ({what}) evaluates to {other:?} at {p:?}, closed form {want}")),
+                    }
+                }
+            }
         }
     }
     if before != after {
